@@ -41,7 +41,12 @@ var repo = func() string {
 	return "/repo"
 }()
 
-const verifRoot = "/verif"
+var verifRoot = func() string {
+	if r := os.Getenv("VERIF_ROOT"); r != "" {
+		return r
+	}
+	return "/verif"
+}()
 
 // directories named by the property's anchors: each must still contain at least one codec
 var anchoredDirs = []string{"src/coin", "src/daemon", "src/visor", "src/visor/blockdb", "src/visor/historydb"}
